@@ -137,5 +137,6 @@ pub fn property() -> Property {
             direct: None,
         }],
         assumptions: &["re-aggregation compares the harness's re-implementation of the documented formula with the library: relative tolerance 1e-12"],
+        enumerate: None,
     }
 }
